@@ -43,6 +43,12 @@ func (d *Dataset) Expand() []Row {
 func valueOf(kind string, seed uint64, col, j int) string {
 	h := simrt.Hash3(seed, uint64(col)+77, uint64(j))
 	switch kind {
+	case "joinable":
+		// values that a "join the tuple with a separator" key confuses across columns:
+		// (p+sep+q, r) vs (p, q+sep+r)
+		sep := joinSeps[int(seed%uint64(len(joinSeps)))]
+		sep2 := joinSeps[int((seed/13)%uint64(len(joinSeps)))]
+		return []string{"p", "q", "r", "p" + sep + "q", "q" + sep + "r", "p" + sep2 + "q", "q" + sep2 + "r", "p" + sep + "q" + sep + "r", ""}[j%9]
 	case "boundary":
 		// near-duplicate pairs (equal but for the last byte) whose length, together with the
 		// column name, sits at and around powers of two: fixed-size buffers, page and key limits
@@ -81,6 +87,8 @@ func boundaryValue(nameLen, j int) string {
 	}
 	return strings.Repeat("x", t-1) + string(rune('a'+j%2))
 }
+
+var joinSeps = []string{"\x1f", ",", "\x00", "|", ";", " ", "\t", ":", "/", "\x1e", "=", "\n"}
 
 var boundaryTotals = []int{15, 16, 17, 31, 32, 33, 63, 64, 65, 127, 128, 129, 130, 255, 256, 257, 511, 512, 513, 1023, 1024, 1025, 4095, 4096, 4097}
 
@@ -187,6 +195,12 @@ func GenDataSpec(r *simrt.Rand, n int, wantUnique bool) *DataSpec {
 			cs.Kind, cs.Card, cs.Shape = "boundary", r.Range(20, 2*len(boundaryTotals)), "uniform"
 		}
 		sp.Cols = append(sp.Cols, cs)
+	}
+	if ncols >= 2 && r.Chance(1, 10) {
+		// two (or more) columns drawing from the same joinable value set
+		for c := 0; c < ncols && c < 3; c++ {
+			sp.Cols[c].Kind, sp.Cols[c].Card, sp.Cols[c].Shape, sp.Cols[c].Missing = "joinable", 9, "uniform", 0
+		}
 	}
 	if r.Chance(1, 4) {
 		sp.EmptyRowPM = []int{20, 200}[r.Intn(2)]
@@ -311,6 +325,33 @@ func genNary(r *simrt.Rand, si *schemaInfo, depth int, o ExprOpts, op string) *E
 	if o.MaxArity >= 4 && r.Chance(1, 25) {
 		ar = r.Range(6, 24) // a wide node now and then
 		depth = 1
+	}
+	if o.MaxArity >= 4 && r.Chance(1, 60) {
+		// operand counts at and around powers of two (chunked or tree-shaped reductions)
+		ar = []int{31, 32, 33, 63, 64, 65, 127, 128, 129, 255, 256, 257, 1023, 1024, 1025}[r.Intn(15)]
+		depth = 1
+	}
+	if ar >= 31 {
+		// a wide node is only informative if single operands matter: many copies of one leaf
+		// plus ONE different operand (often the last one)
+		base := genLeaf(r, si, o)
+		if op == "or" {
+			base = Eq(string(base.Col), "absent-value")
+		}
+		odd := GenExpr(r, si, 1, ExprOpts{MaxArity: 2, SkipCol: o.SkipCol})
+		pos := r.Intn(ar)
+		if r.Chance(1, 2) {
+			pos = ar - 1
+		}
+		e := &Expr{Op: op}
+		for i := 0; i < ar; i++ {
+			if i == pos {
+				e.Kids = append(e.Kids, odd)
+			} else {
+				e.Kids = append(e.Kids, base.Clone())
+			}
+		}
+		return e
 	}
 	e := &Expr{Op: op}
 	for i := 0; i < ar; i++ {
